@@ -77,6 +77,26 @@ theorem choose_final (given : Option Name) (force : Bool) (a : List Nat) (E : Na
         have := detectFinal_of_early a ext d hd
         simp [hd] at h; simp [this, h]
 
+theorem choose_stable (given : Option Name) (force : Bool) (a x : List Nat) (E : Name)
+    (h : choose given force a = some E) : choose given force (a ++ x) = some E := by
+  unfold choose at *
+  cases given with
+  | none =>
+    cases hd : detect a false with
+    | none => cases force <;> simp [hd] at h
+    | some d =>
+      have hd' := detect_stable a x false d hd
+      cases force <;> simp [hd] at h <;> simp [hd', h]
+  | some g =>
+    cases force with
+    | true => exact h
+    | false =>
+      cases hd : detect a false with
+      | none => simp [hd] at h
+      | some d =>
+        have hd' := detect_stable a x false d hd
+        simp [hd] at h; simp [hd', h]
+
 theorem EncOk_mono (given : Option Name) (force : Bool) (a x : List Nat) (enc : Option Name)
     (h : EncOk given force a enc) : EncOk given force (a ++ x) enc := by
   rcases h with h | ⟨hgf, d, hd, he⟩
@@ -85,7 +105,7 @@ theorem EncOk_mono (given : Option Name) (force : Bool) (a x : List Nat) (enc : 
 
 def RInv (I : Inner) (given : Option Name) (force : Bool) (a em : List Nat) : RSt → Prop
   | .waiting enc bb => bb = a ∧ em = [] ∧ EncOk given force a enc ∧ RUnd I given force a
-  | .reading E c => c = a ∧ (∀ ext, finalEnc given force (a ++ ext) = E) ∧
+  | .reading E c => c = a ∧ choose given force a = some E ∧
       (∀ ext, fixFinal (I.out E a false ++ ext) E = em ++ ext)
 
 theorem fix_nil (g : List Nat) : fixEncoding [] g false = none := by
@@ -118,16 +138,14 @@ theorem rstep_inv (I : Inner) (given : Option Name) (force : Bool) (a em x : Lis
         exact ⟨rfl, rfl, choose_next given force _ E hc, by unfold RUnd; rw [hc]; exact hf⟩
       | some t =>
         dsimp only
-        refine ⟨rfl, ?_, ?_⟩
-        · intro ext; exact choose_final given force _ E hc ext
-        · intro ext; simpa using fixFinal_of_early _ ext E t hf
+        refine ⟨rfl, hc, ?_⟩
+        intro ext; simpa using fixFinal_of_early _ ext E t hf
   | reading E c =>
     obtain ⟨rfl, hE, hfx⟩ := h
     simp only [rstep]
-    refine ⟨rfl, ?_, ?_⟩
-    · intro ext; rw [List.append_assoc]; exact hE _
-    · intro ext
-      rw [feedInner_spec I E c x false, List.append_assoc, hfx, List.append_assoc]
+    refine ⟨rfl, choose_stable given force c x E hE, ?_⟩
+    intro ext
+    rw [feedInner_spec I E c x false, List.append_assoc, hfx, List.append_assoc]
 
 theorem rrunChunks_inv (I : Inner) (given : Option Name) (force : Bool) (cs : List (List Nat)) :
     ∀ (a em : List Nat) (s : RSt), RInv I given force a em s →
@@ -155,7 +173,7 @@ theorem readAll_prefix (I : Inner) (given : Option Name) (force : Bool) (cs : Li
   | reading E c =>
     rw [hs] at h
     obtain ⟨_, hE, hfx⟩ := h
-    have hE0 : finalEnc given force cs.flatten = E := by simpa using hE []
+    have hE0 : finalEnc given force cs.flatten = E := by simpa using choose_final given force _ E hE []
     obtain ⟨ext, hm⟩ := I.mono E cs.flatten [] true
     simp only [List.append_nil] at hm
     refine ⟨ext, ?_⟩
@@ -180,7 +198,7 @@ theorem readAll_complete (I : Inner) (given : Option Name) (force : Bool) (cs : 
   | reading E c =>
     rw [hs] at h
     obtain ⟨_, hE, hfx⟩ := h
-    have hE0 : finalEnc given force cs.flatten = E := by simpa using hE []
+    have hE0 : finalEnc given force cs.flatten = E := by simpa using choose_final given force _ E hE []
     unfold oneShot
     rw [hpend, hE0]
     have := hfx []
